@@ -113,6 +113,30 @@ def run(pid, tier, args):
                 if "BADERR" in o or o.startswith(("panic", "hang")):
                     v.violation("example grammar %s on input %s: %s" % (p[0], p[1], o), {"property": pid, "kind": "example", "grammar": p[0], "input_quoted": p[1], "real": o})
             v.validated(nex)
+            # (2b) the same clause judged by the trace specification Trace_ErrOK (location by Position!PosOf on the input)
+            ef = os.path.join(wd, "errfacts.ndjson")
+            vlib.vh(vhbin, ["errfacts-run", str(vlib.seed() + 1), "25" if quick else "300"], outfile=ef, timeout=3000)
+            elines = open(ef).read().splitlines()
+            while elines:
+                cur = os.path.join(wd, "errfacts-cur.ndjson")
+                open(cur, "w").write("\n".join(elines) + "\n")
+                tres = vlib.run_tlc(wd, "Trace_ErrOK", modules=["LexStream", "Position"], workers=1, dfs=True, timeout=3000, extra_files=[cur], consts={"TraceFile": '"errfacts-cur.ndjson"'})
+                v.add_tlc(tres)
+                rej = None
+                for f in vlib.parse_lines(tres.lines, "REJECTED"):
+                    rej = int(f[0])
+                if rej is None:
+                    if not tres.ok:
+                        raise Infra("Trace_ErrOK: %s" % (tres.violation or tres.error))
+                    v.validated(len(elines))
+                    break
+                bad = json.loads(elines[rej - 1])
+                bad.pop("chars", None)
+                v.violation("example grammar %s on input %r: the error is not well-formed (Trace_ErrOK): %s" % (bad.get("grammar"), bad.get("input"), json.dumps(bad)[:300]), {"property": pid, "kind": "errfacts", "event": bad})
+                v.validated(rej)
+                elines = elines[rej:]
+                if len(v.violations) > 3:
+                    break
             # (3) deep / long inputs in child processes
             deep = []
             for name in ("json", "expr", "interp", "ini"):
